@@ -1065,3 +1065,5 @@ func iterationAvoiding(li *loopInfo, cuts map[Edge]bool, isBarrier func(ssa.Inst
 
 	return found
 }
+
+func sortStrings(s []string) { sort.Strings(s) }
